@@ -843,3 +843,23 @@ Proof.
     rewrite !List.app_nil_r in K. exact K.
   - rewrite (omit_go_plain _ _ Hplain). cbn. apply List.app_nil_r.
 Qed.
+
+(** ** 6. registries whose item paths are unique are skeleton consistent (no same-path families,
+    hence no F15): C14_conforms without the consistency hypothesis *)
+Definition unique_item_paths (r : registry) (s : settings) : Prop :=
+  forall id X id' X', In (id, X) r -> In (id', X') r ->
+    item_eligible s X = true -> item_eligible s X' = true -> t_path X = t_path X' -> X = X'.
+
+Lemma unique_paths_consistent r s : unique_item_paths r s -> skeleton_consistent r s.
+Proof.
+  intros Hu id X id0 X0 Hin He Hfirst.
+  apply first_eligible_some in Hfirst as (Hin0 & Hp0 & He0).
+  rewrite (Hu id X id0 X0 Hin Hin0 He He0 (eq_sym Hp0)). reflexivity.
+Qed.
+
+Theorem example_conforms_unique (r : registry) (s : settings) (teq : N -> N -> result bool) (m : items) :
+  generate r s teq = Ok m -> unique_item_paths r s ->
+  forall id ws ts, example_rust r s id ws = XOk ts -> conforms r s m id ts [].
+Proof.
+  intros Hg Hu. apply (example_conforms r s teq m Hg). apply unique_paths_consistent. exact Hu.
+Qed.
